@@ -263,7 +263,7 @@ let exec (s : t) (verbose : bool) (f : string array) (obs : string option) : str
        (match db_open c s.disk with
         | (OpenOk (d, k), evs) -> s.db <- Some d; s.disk <- k; "ok" ^ events_str evs
         | (OpenErr (e, k), evs) -> lock_close h; s.disk <- k; "err " ^ eerr_name e ^ events_str evs))
-  | "open2" | "openchild" ->
+  | "open2" | "openchild" | "openbg" ->
     (match lock_attempt s.cur false with
      | (LInUse, _) -> "err inuse"
      | (_, h) ->
@@ -471,6 +471,40 @@ let exec (s : t) (verbose : bool) (f : string array) (obs : string option) : str
       "err scan-order-does-not-cover-file-" ^ string_of_n (List.hd missing)
     else
     (match e with None -> "ok" | Some e -> "err " ^ eerr_name e) ^ " order " ^ order_s ^ events_str evs
+  | "mergew" ->
+    (* E mergew <pro>|<w1>|<w2>...: racing calls that ran when Merge wrote its 1st, 2nd ... rewritten record,
+       i.e. after that record's liveness check.  For the engine that is the slot before the next record is
+       looked up; the harness reports the slots as they fell ("eff ...") and the calls that ran after the
+       last lookup ("post ...") - inputs of the model like the scan order. *)
+    let o = match obs with Some o -> obs_head o | None -> "ok order eff - post -" in
+    let (head, rest) = split_first o " eff " in
+    let (eff_s, post_s) = split_first rest " post " in
+    let order_s = match split_first head "order" with (_, r) -> String.trim r in
+    let order = if order_s = "" then [] else List.map n_of_string (String.split_on_char ',' order_s) in
+    let parse_ops (spec : string) : mop list =
+      let spec = String.trim spec in
+      if spec = "-" || spec = "" then [] else
+      List.map (fun o -> match String.split_on_char ',' o with
+        | ["p"; k; v] -> MPut (tok_bytes k, tok_bytes v)
+        | ["d"; k] -> MDel (tok_bytes k)
+        | _ -> failwith "bad racing op") (String.split_on_char ';' spec) in
+    let parts = String.split_on_char '|' (String.trim eff_s) in
+    let pro = parse_ops (List.hd parts) in
+    let sched = List.map parse_ops (List.tl parts) in
+    let post = parse_ops post_s in
+    let d0 = get_db s in
+    let ids = d0.d_active_id :: List.map fst d0.d_older in
+    let missing = List.filter (fun id -> not (List.mem id order)) ids in
+    let (((d, k), e), evs) = db_merge_i d0 s.disk order pro sched in
+    let d = List.fold_left (fun d op -> match op with
+      | MPut (kk, v) -> let ((d, _), _) = db_put d kk v in d
+      | MDel kk -> let ((d, _), _) = db_delete d kk in d) d post in
+    s.db <- Some d; s.disk <- k;
+    if missing <> [] && e = None then
+      "err scan-order-does-not-cover-file-" ^ string_of_n (List.hd missing)
+    else
+    (match e with None -> "ok" | Some e -> "err " ^ eerr_name e) ^ " order " ^ order_s
+    ^ " eff " ^ String.trim eff_s ^ " post " ^ String.trim post_s ^ events_str evs
   | "backup" ->
     let ((d, k), evs) = db_backup (get_db s) s.disk in
     (* Backup makes the destination a copy of the data directory (stale data and hint files of an
